@@ -1,8 +1,5 @@
 SPECIFICATION Spec
 CONSTANTS
-  MaxItems = 4
-  MaxBlocks = 1
-  MaxDepth = 1
-  Small = TRUE
+  Families = {"flat4", "nest1", "nest2"}
 INVARIANT Inv
 CHECK_DEADLOCK FALSE
